@@ -211,6 +211,13 @@ def stage_a(prop, make_targets=None):
     if len(blocks) != len(printed):
         res["failures"].append("Print Assumptions output count %d != %d" % (len(blocks), len(printed)))
     res["discharged"] = min(closed, len(thms)) if not missing else 0
+    if os.environ.get("VERIF_CURRENT_TIER") == "thorough" and not res["failures"]:
+        # independent re-check of the compiled property file and everything it depends on
+        ok2, out2 = coqchk(["Properties." + prop])
+        res["coqchk"] = out2[-900:]
+        res["checker_cmd"] += " && coqchk -silent -o -Q coq MC MC.Properties.%s" % prop
+        if not ok2 or "Axioms: <none>" not in out2 or "type-in-type: <none>" not in out2 or "unsafe (co)fixpoints: <none>" not in out2 or "positivity is assumed: <none>" not in out2:
+            res["failures"].append("coqchk: " + out2[-1500:])
     res["ok"] = not res["failures"] and res["discharged"] == res["obligations"] and res["obligations"] > 0
     return res
 
